@@ -34,6 +34,7 @@ def run_roles(prog, fi, roles, vararg=None, kwarg=None, args=None, **sc):
     is_method = fi.cls is not None and 'staticmethod' not in decs
     sc.setdefault('inline', noinline)
     sc.setdefault('canonical_objs', True)
+    sc.setdefault('extended', True)
     scen = Scenario(**sc)
     overrides = dict(args or {})
     call_args = {}
